@@ -288,6 +288,7 @@ struct Loc {   // what a forked run reports back: bins, maxima and its case
     void maxi(const std::string& k, double v) { auto it = maxima.find(k); if (it == maxima.end() || v > it->second) maxima[k] = v; }
 };
 
+static int g_solver_threads = 1;   // set from --threads: removals and divisions of several cells in one iteration must not depend on it
 struct MonSolver : public solver {
     using solver::solver;
     unsigned iteration() const { return iteration_; }
@@ -522,7 +523,7 @@ std::string solver_case(const Args& a, long i, const std::string& folder) {
     long done = 0; std::string ended = "all_iterations";
     MonSolver* s = nullptr;
     try {
-        s = new MonSolver(sp, cells, 1, true, false);   // never deleted: the base classes of the solver's members have no virtual destructor (C10's finding, not ours)
+        s = new MonSolver(sp, cells, g_solver_threads, true, false);   // never deleted: the base classes of the solver's members have no virtual destructor (C10's finding, not ours)
         g_mon = &mon; verif::get().phase = phase_sink;
         for (long it = 0; it < n_iter; it++) {
             mon.iter = (int)it; if (s->get_cell_lst().empty()) { ended = "population_empty"; break; }
@@ -550,6 +551,7 @@ std::string solver_case(const Args& a, long i, const std::string& folder) {
 }
 
 int run_solver(const Args& a) {
+    g_solver_threads = a.threads > 0 ? a.threads : 1;
     Agg agg; agg.max_viol = 40;
     char cwd[4096]; if (!getcwd(cwd, sizeof cwd)) { perror("getcwd"); return 2; }
     for (long i = a.first; i < a.first + a.cases; i++) {
